@@ -453,7 +453,11 @@ impl<A: Address> Net<A> {
     }
     pub fn accept<CB: Callback<A>>(&mut self, cb: &mut CB, pid: PeerId) -> Result<(), CB::Error> {
         let peer = &mut self.peers[pid];
-        assert!(peer.conn.is_unconnected());
+        if !peer.conn.is_unconnected() {
+            // A repeated connect request from the peer has already started
+            // the handshake.
+            return Ok(());
+        }
         let mut buf: ArrayVec<[u8; 2048]> = ArrayVec::new();
         let connect_packet: &[u8] = if peer.token {
             CONNECT_PACKET
@@ -475,7 +479,6 @@ impl<A: Address> Net<A> {
         let result;
         {
             let peer = &mut self.peers[pid];
-            assert!(peer.conn.is_unconnected());
             result = peer.conn.disconnect(&mut cc(cb, peer.addr), reason);
         }
         self.peers.remove_peer(pid);
